@@ -85,4 +85,87 @@ theorem ethernet_opaque (de : Slice) (hwf : de.WF) (dst src : Bytes) (et : UInt1
     Res.pure_eq]
   rfl
 
+/-- `Len()` through the `util.Message` interface reaches FlowStats.Len -/
+theorem anyLenM_flowStats (fs : List V) : anyLenM (.obj "FlowStats" fs) = FlowStats.lenM (.obj "FlowStats" fs) := rfl
+
+/-- the value of a goto-table instruction -/
+def gotoTableV (tableId : UInt8) : V :=
+  .obj "InstrGotoTable" [.obj "InstrHeader" [.num 1, .num 8], .num tableId.toNat, .bytes []]
+
+/-- a goto-table instruction (type 1, length 8, table id, 3 bytes pad) decodes to that instruction -/
+theorem instr_gotoTable (di : Slice) (hwf : di.WF) (tableId : UInt8) (rest : Bytes)
+    (h : di.bytes = be16 1 ++ (be16 8 ++ ([tableId, 0, 0, 0] ++ rest))) :
+    DecodeInstr di = .ok (gotoTableV tableId) := by
+  have hl : 8 + rest.length = di.len := by rw [← bytes_length di hwf, h]; simp; omega
+  obtain ⟨d4, h1, hd4wf, hd4l, hd4⟩ := uptoR_at di hwf 4 (by omega)
+  rw [h] at hd4
+  obtain ⟨p, h2, _, _, _⟩ := sliceR_at di hwf 5 8 (by omega) (by omega)
+  have hh : InstrHeader.unmarshal InstrHeader.zero d4 = .ok (.obj "InstrHeader" [.num 1, .num 8]) := by
+    unfold InstrHeader.unmarshal
+    rw [if_neg (by omega), u16In_at d4 hd4wf 0 2 1 _ (by omega) (by omega) (by rw [hd4]; rfl),
+      u16In_at d4 hd4wf 2 4 8 _ (by omega) (by omega) (by rw [hd4]; rfl)]
+    rfl
+  unfold DecodeInstr
+  rw [u16In_at di hwf 0 2 1 _ (by omega) (by omega) h]
+  show (InstrAux.catchErr (InstrGotoTable.unmarshal InstrGotoTable.zero di) InstrGotoTable.zero >>= _) = _
+  unfold InstrGotoTable.unmarshal InstrGotoTable.zero InstrHeader.unmarshal4 InstrAux.catchErr
+  simp only [h1, hh, Res.bind_ok, byteAt_at di 4 tableId _ (by rw [h]; rfl), h2, copyInto_nil]
+  rfl
+
+theorem gotoTable_len (tableId : UInt8) : Instruction.lenM (gotoTableV tableId) = .ok (8, gotoTableV tableId) := rfl
+
+theorem len4 (l : Bytes) (h : l.length = 4) : ∃ a b c d, l = [a, b, c, d] := by
+  match l, h with
+  | [a, b, c, d], _ => exact ⟨a, b, c, d, rfl⟩
+
+/-- an untagged Ethernet frame carrying an Ethernet/IPv4 ARP packet (ethertype 0x0806; htype 1, ptype 0x0800, hlen 6,
+    plen 4, operation, sender and target hardware / protocol addresses) -/
+theorem ethernet_arp (de : Slice) (hwf : de.WF) (dst src : Bytes) (oper : UInt16) (sha spa tha tpa : Bytes)
+    (hdst : dst.length = 6) (hsrc : src.length = 6) (hsha : sha.length = 6) (hspa : spa.length = 4)
+    (htha : tha.length = 6) (htpa : tpa.length = 4)
+    (h : de.bytes = dst ++ (src ++ (be16 0x0806 ++ (be16 1 ++ (be16 0x0800 ++ ([6, 4] ++ (be16 oper ++ (sha ++ (spa ++
+      (tha ++ tpa)))))))))) :
+    PEthernet.unmarshal PEthernet.zero de = .ok (.obj "p.Ethernet" [.num 0, .bytes dst, .bytes src,
+      .obj "p.VLAN" [.num 0, .num 0, .num 0, .num 0], .num 0x0806,
+      .obj "p.ARP" [.num 1, .num 0x0800, .num 6, .num 4, .num oper.toNat, .bytes sha, .bytes spa, .bytes tha,
+        .bytes tpa]]) := by
+  obtain ⟨a0, a1, a2, a3, a4, a5, rfl⟩ := len6 dst hdst
+  obtain ⟨b0, b1, b2, b3, b4, b5, rfl⟩ := len6 src hsrc
+  obtain ⟨c0, c1, c2, c3, c4, c5, rfl⟩ := len6 sha hsha
+  obtain ⟨e0, e1, e2, e3, e4, e5, rfl⟩ := len6 tha htha
+  obtain ⟨f0, f1, f2, f3, rfl⟩ := len4 spa hspa
+  obtain ⟨g0, g1, g2, g3, rfl⟩ := len4 tpa htpa
+  have hl : de.len = 42 := by rw [← bytes_length de hwf, h]; rfl
+  obtain ⟨s1, e1', _, _, hs1⟩ := sliceR_at de hwf 0 6 (by omega) (by omega)
+  obtain ⟨s2, e2', _, _, hs2⟩ := sliceR_at de hwf 6 12 (by omega) (by omega)
+  obtain ⟨r, e3', hrwf, hrl, hr⟩ := fromR_at de hwf 14 (by omega)
+  rw [h] at hr hs1 hs2
+  have hrl' : r.len = 28 := by omega
+  obtain ⟨t1, q1, _, _, ht1⟩ := sliceR_at r hrwf 8 14 (by omega) (by omega)
+  obtain ⟨t2, q2, _, _, ht2⟩ := sliceR_at r hrwf 14 18 (by omega) (by omega)
+  obtain ⟨t3, q3, _, _, ht3⟩ := sliceR_at r hrwf 18 24 (by omega) (by omega)
+  obtain ⟨t4, q4, _, _, ht4⟩ := sliceR_at r hrwf 24 28 (by omega) (by omega)
+  have harp : PARP.unmarshal PARP.zero r = .ok (.obj "p.ARP" [.num 1, .num 0x0800, .num 6, .num 4, .num oper.toNat,
+      .bytes [c0, c1, c2, c3, c4, c5], .bytes [f0, f1, f2, f3], .bytes [e0, e1, e2, e3, e4, e5],
+      .bytes [g0, g1, g2, g3]]) := by
+    unfold PARP.unmarshal
+    rw [if_neg (by omega)]
+    simp only [u16In_at r hrwf 0 2 1 _ (by omega) (by omega) (by rw [hr]; rfl),
+      u16In_at r hrwf 2 4 0x0800 _ (by omega) (by omega) (by rw [hr]; rfl),
+      byteAt_at r 4 6 _ (by rw [hr]; rfl), byteAt_at r 5 4 _ (by rw [hr]; rfl),
+      u16In_at r hrwf 6 8 oper _ (by omega) (by omega) (by rw [hr]; rfl), Res.bind_ok, hrl']
+    rw [if_neg (by decide)]
+    show (r.sliceR 8 14 >>= fun s1 => r.sliceR 14 18 >>= fun s2 => r.sliceR 18 24 >>= fun s3 =>
+      r.sliceR 24 28 >>= fun s4 => _) = _
+    simp only [q1, q2, q3, q4, Res.bind_ok, ht1, ht2, ht3, ht4, hr]
+    rfl
+  unfold PEthernet.unmarshal
+  rw [if_neg (by omega)]
+  simp only [PEthernet.zero, e1', e2', u16From_at de 12 0x0806 _ (by rw [h]; rfl), Res.bind_ok]
+  rw [if_neg (by decide)]
+  simp only [Res.bind_ok, e3']
+  rw [if_neg (by decide), if_neg (by decide), if_pos (by decide), harp]
+  simp only [Res.bind_ok, hs1, hs2]
+  rfl
+
 end OFV.Sw
